@@ -86,7 +86,8 @@ def dim_term(dim):
     return {"time": "DTime", "one": "DOne", "angle": "DAngle", "vel": "DVel", "other": "DOtherDim", "velrad": "DOtherDim"}[dim]
 
 
-FAMILY_KIND = {"normal": "KNormal", "fcm": "KFixedCompanionMass", "uniform": "KOtherRandom", "halfnormal": "KOtherRandom", "studentt": "KOtherRandom",
+NO_OWNER = ("constant", "shared")  # tensors that are not the output of any op: not random variables at all
+FAMILY_KIND = {"constant": "KNotRandom", "shared": "KNotRandom", "normal": "KNormal", "fcm": "KFixedCompanionMass", "uniform": "KOtherRandom", "halfnormal": "KOtherRandom", "studentt": "KOtherRandom",
                "beta": "KOtherRandom", "uniformlog": "KOtherRandom", "deterministic": "KNotRandom"}
 
 
@@ -144,6 +145,12 @@ def build_prior(cfg, poly, noff):
                     v = UniformLog(n, 1.0, 100.0)
                 elif fam == "deterministic":
                     v = pm.Deterministic(n, pt.constant(0.25))
+                elif fam == "constant":
+                    v = pt.constant(5.0, name=n)
+                elif fam == "shared":
+                    import pytensor
+
+                    v = pytensor.shared(0.25, name=n)
                 else:
                     raise ValueError(fam)
                 if c["has_unit"]:
@@ -196,7 +203,7 @@ def gen_configs(ctx):
                 perts.append((n, "wrongdim"))
                 perts.append((n, "wrongdim2"))
                 if is_linear(n):
-                    for fam in ("uniform", "halfnormal", "studentt", "deterministic"):
+                    for fam in ("uniform", "halfnormal", "studentt", "deterministic", "constant", "shared"):
                         perts.append((n, "fam:" + fam))
                     if n != "K":
                         pass
@@ -259,6 +266,11 @@ def run_prior_cases(ctx, cfgs):
             exp_names = par_list(poly, noff_eff)
             if res[1] != exp_names:
                 ctx.fail("predicate", "C18:prior", f"par_names {res[1]} not in the order nonlinear, linear, offsets {exp_names}", case=case)
+        elif any(c["present"] and c["family"] in NO_OWNER for c in cfg.values()):
+            # a bare constant / shared variable in place of a prior is refused while the prior is inspected (the pinned code fails on the
+            # missing owner before it can name the parameter): the rejection itself is what the property asks for; no model term
+            nt += 1
+            continue
         else:
             obs = map_exc(res[1], res[2])
             if wellformed:
